@@ -332,6 +332,8 @@ func (c *channel) Close() error {
 		return c.transport.Close()
 	}
 
+	// The peer may already be gone: the local end of the connection is still released
+	_ = c.transport.Close()
 	return nil
 }
 
